@@ -274,11 +274,25 @@ func concatOperandsN(v ssa.Value, depth int) []ssa.Value {
 				if sv := ssax.CapturedSingleStore(cell); sv != nil {
 					return concatOperandsN(sv, depth)
 				}
+				// built step by step before the closure was made: its last value
+				if al := capturedCell(cell); al != nil {
+					if st := lastStraightStore(al, nil); st != nil {
+						return concatOperandsN(st.Val, depth)
+					}
+				}
 			case *ssa.Alloc:
 				if sv := ssax.SingleStore(cell); sv != nil {
 					return concatOperandsN(sv, depth)
 				}
+				if st := lastStraightStore(cell, x); st != nil {
+					return concatOperandsN(st.Val, depth)
+				}
 			}
+		}
+	case *ssa.MakeSlice:
+		// make([]byte, 0, n): the empty start of a key that is appended to
+		if n, ok := ssax.ConstInt(x.Len); ok && n == 0 {
+			return nil
 		}
 	case *ssa.Call:
 		// append(prefix, rest...) concatenates byte strings
@@ -950,8 +964,11 @@ func queryBlocksValidated(w *load.World, c *core.Collector) {
 		return
 	}
 	// tests of a payload pointer whose not-nil side calls Validate on that payload
-	f = homeOf(f, func(g *ssa.Function) bool { return len(queryBlockTests(g)) >= 3 })
+	f = homeOf(f, func(g *ssa.Function) bool { return len(queryBlockTests(g))+len(queryBlockTable(g)) >= 3 })
 	tests := queryBlockTests(f)
+	for n, bs := range queryBlockTable(f) {
+		tests[n] = append(tests[n], bs...)
+	}
 	var names []string
 	for n := range tests {
 		names = append(names, n)
@@ -1363,6 +1380,16 @@ func filtersValidated(w *load.World, c *core.Collector) {
 					continue
 				}
 				g := call.Call.StaticCallee()
+				if g == nil && call.Call.IsInvoke() && call.Call.Method.Name() == "Validate" {
+					// "validate whatever block is present" through an interface: every block it can be
+					for _, h := range w.Callees(call, true) {
+						// pointer-receiver wrappers of value-receiver methods belong to no package
+						if h.Name() == "Validate" && (load.PkgPath(h) == load.PkgPath(root) || h.Synthetic != "") {
+							visit(h, depth)
+						}
+					}
+					continue
+				}
 				if g == nil || !ssax.InModule(g) {
 					continue
 				}
@@ -1371,7 +1398,7 @@ func filtersValidated(w *load.World, c *core.Collector) {
 						got[k] = true
 					}
 				}
-				if load.PkgPath(g) == load.PkgPath(root) {
+				if load.PkgPath(g) == load.PkgPath(root) || f.Synthetic != "" && g.Name() == "Validate" {
 					visit(g, depth+1)
 				}
 			}
@@ -1391,4 +1418,289 @@ func filtersValidated(w *load.World, c *core.Collector) {
 			c.Add("VALID", key, core.Violation, w.Position(root.Pos()), "the pre-filter of "+k+" is a query of its own but is not validated on the way through Query.Validate: unknown operators, missing limits and malformed ids in it reach the index code (a missing limit makes the flat search panic outside the recovery middleware)", props...)
 		}
 	}
+}
+
+// capturedCell: the cell of the enclosing function a free variable is bound to
+func capturedCell(fv *ssa.FreeVar) *ssa.Alloc {
+	fn := fv.Parent()
+	if fn == nil || fn.Parent() == nil {
+		return nil
+	}
+	for i, q := range fn.FreeVars {
+		if q != fv {
+			continue
+		}
+		for _, b := range fn.Parent().Blocks {
+			for _, in := range b.Instrs {
+				if mc, ok := in.(*ssa.MakeClosure); ok && mc.Fn == ssa.Value(fn) && i < len(mc.Bindings) {
+					al, _ := mc.Bindings[i].(*ssa.Alloc)
+					return al
+				}
+			}
+		}
+	}
+	return nil
+}
+
+// lastStraightStore: every store into the cell sits in one basic block of the function that
+// owns it (a value built step by step in straight-line code). The store in force at the load
+// `at` (a load in that block), or the last one when at is nil (what a closure made afterwards
+// sees). nil when the stores are spread over branches or closures.
+func lastStraightStore(al *ssa.Alloc, at *ssa.UnOp) *ssa.Store {
+	var blk *ssa.BasicBlock
+	var stores []*ssa.Store
+	for _, r := range *al.Referrers() {
+		switch x := r.(type) {
+		case *ssa.Store:
+			if x.Addr != ssa.Value(al) {
+				return nil // the address itself is stored somewhere
+			}
+			if blk == nil {
+				blk = x.Block()
+			} else if blk != x.Block() {
+				return nil
+			}
+			stores = append(stores, x)
+		case *ssa.MakeClosure:
+			// a closure that captures the cell must not assign to it
+			fn := x.Fn.(*ssa.Function)
+			for i, b := range x.Bindings {
+				if b != ssa.Value(al) {
+					continue
+				}
+				for _, rr := range *fn.FreeVars[i].Referrers() {
+					if st, ok := rr.(*ssa.Store); ok && st.Addr == ssa.Value(fn.FreeVars[i]) {
+						return nil
+					}
+				}
+			}
+		}
+	}
+	if blk == nil {
+		return nil
+	}
+	var last *ssa.Store
+	for _, in := range blk.Instrs {
+		if at != nil && in == ssa.Instruction(at) {
+			return last
+		}
+		if st, ok := in.(*ssa.Store); ok && st.Addr == ssa.Value(al) {
+			last = st
+		}
+	}
+	if at != nil && at.Block() != blk && !blk.Dominates(at.Block()) {
+		return nil
+	}
+	return last
+}
+
+// queryBlockTable: the table form of "validate every block that is present". A literal array of
+// rows {…, present: q.X != nil, options: q.X} is ranged over as a whole; for each row the loop
+// calls Validate on the row's options behind the row's present flag and is left early only with an
+// error. Returns, per payload field that has such a row, the loop header (every path to a
+// successful return has to go through it).
+func queryBlockTable(f *ssa.Function) map[string][]*ssa.BasicBlock {
+	out := map[string][]*ssa.BasicBlock{}
+	// rows: a literal struct whose bool field is "payload != nil" and whose interface field is that payload
+	type row struct {
+		table           *ssa.Alloc
+		boolIdx, ifcIdx int
+		name            string
+	}
+	var rows []row
+	for _, b := range f.Blocks {
+		for _, in := range b.Instrs {
+			st, ok := in.(*ssa.Store)
+			if !ok {
+				continue
+			}
+			ia, ok := st.Addr.(*ssa.IndexAddr)
+			if !ok {
+				continue
+			}
+			table, ok := ia.X.(*ssa.Alloc)
+			if !ok {
+				continue
+			}
+			ld, ok := st.Val.(*ssa.UnOp)
+			if !ok || ld.Op != token.MUL {
+				continue
+			}
+			lit, ok := ld.X.(*ssa.Alloc)
+			if !ok || ssax.StructOf(lit.Type()) == nil {
+				continue
+			}
+			r := row{table: table, boolIdx: -1, ifcIdx: -1}
+			var stB, stI *types.Struct
+			fB, fI := -1, -2
+			for _, ref := range *lit.Referrers() {
+				fa, ok := ref.(*ssa.FieldAddr)
+				if !ok {
+					continue
+				}
+				for _, rr := range *fa.Referrers() {
+					fst, ok := rr.(*ssa.Store)
+					if !ok || fst.Addr != ssa.Value(fa) {
+						continue
+					}
+					switch v := fst.Val.(type) {
+					case *ssa.BinOp:
+						if v.Op == token.NEQ && (ssax.IsNilConst(v.X) || ssax.IsNilConst(v.Y)) {
+							other := v.X
+							if ssax.IsNilConst(v.X) {
+								other = v.Y
+							}
+							if _, s2, i2, ok := payloadLoad(other); ok {
+								r.boolIdx, stB, fB = fa.Field, s2, i2
+							}
+						}
+					case *ssa.MakeInterface:
+						if _, s2, i2, ok := payloadLoad(v.X); ok {
+							r.ifcIdx, stI, fI = fa.Field, s2, i2
+						}
+					}
+				}
+			}
+			if r.boolIdx >= 0 && r.ifcIdx >= 0 && stB == stI && fB == fI {
+				r.name = stB.Field(fB).Name()
+				rows = append(rows, r)
+			}
+		}
+	}
+	if len(rows) == 0 {
+		return out
+	}
+	// the loop: an invoke of Validate on element.options behind element.present, element ranging over the whole table
+	for _, b := range f.Blocks {
+		for _, in := range b.Instrs {
+			call, ok := in.(*ssa.Call)
+			if !ok || !call.Call.IsInvoke() || call.Call.Method.Name() != "Validate" {
+				continue
+			}
+			elem, ifcIdx, ok := rowFieldRead(call.Call.Value)
+			if !ok {
+				continue
+			}
+			table, hdr := rangedTable(elem)
+			if table == nil || hdr == nil {
+				continue
+			}
+			// guarded by the element's present flag
+			guard := -1
+			for _, gb := range f.Blocks {
+				ifi, ok := gb.Instrs[len(gb.Instrs)-1].(*ssa.If)
+				if !ok {
+					continue
+				}
+				cond, neg := ifi.Cond, false
+				if u, ok := cond.(*ssa.UnOp); ok && u.Op == token.NOT {
+					cond, neg = u.X, true
+				}
+				e2, bi, ok := rowFieldRead(cond)
+				if !ok || e2 != elem {
+					continue
+				}
+				succ := 0
+				if neg {
+					succ = 1
+				}
+				if ssax.OnlyViaEdge(gb, succ, b) {
+					guard = bi
+				}
+			}
+			if guard < 0 {
+				continue
+			}
+			// the loop is left early only with an error
+			inLoopSet := map[*ssa.BasicBlock]bool{}
+			for _, lb := range f.Blocks {
+				if lb != hdr && hdr.Dominates(lb) && ssax.Reaches(lb, hdr) {
+					inLoopSet[lb] = true
+				}
+			}
+			early := false
+			for lb := range inLoopSet {
+				for _, s := range lb.Succs {
+					if s == hdr || inLoopSet[s] {
+						continue
+					}
+					ret, isRet := s.Instrs[len(s.Instrs)-1].(*ssa.Return)
+					if !isRet || len(ret.Results) == 0 || !nonNilError(ret.Results[len(ret.Results)-1], s) {
+						early = true
+					}
+				}
+			}
+			if early {
+				continue
+			}
+			for _, r := range rows {
+				if r.table == table && r.boolIdx == guard && r.ifcIdx == ifcIdx {
+					out[r.name] = append(out[r.name], hdr)
+				}
+			}
+		}
+	}
+	return out
+}
+
+// rowFieldRead: v reads field #idx of a table element (the element's copy in a local, or the
+// element in place); the element's identity is the local or the IndexAddr
+func rowFieldRead(v ssa.Value) (elem ssa.Value, idx int, ok bool) {
+	switch x := v.(type) {
+	case *ssa.UnOp:
+		if x.Op != token.MUL {
+			return nil, 0, false
+		}
+		if fa, isFA := x.X.(*ssa.FieldAddr); isFA {
+			return fa.X, fa.Field, true
+		}
+	case *ssa.Field:
+		return x.X, x.Field, true
+	}
+	return nil, 0, false
+}
+
+// rangedTable: elem is the loop variable of a range over a whole literal array (the local copy of
+// table[i], the loaded element, or &table[i]); the array and the loop header
+func rangedTable(elem ssa.Value) (*ssa.Alloc, *ssa.BasicBlock) {
+	var ia *ssa.IndexAddr
+	switch x := elem.(type) {
+	case *ssa.IndexAddr:
+		ia = x
+	case *ssa.UnOp:
+		ia, _ = x.X.(*ssa.IndexAddr)
+	case *ssa.Alloc:
+		// check := table[i]
+		if sv := ssax.SingleStore(x); sv != nil {
+			if ld, ok := sv.(*ssa.UnOp); ok && ld.Op == token.MUL {
+				ia, _ = ld.X.(*ssa.IndexAddr)
+			}
+		}
+	}
+	if ia == nil {
+		return nil, nil
+	}
+	base := ia.X
+	if sl, ok := base.(*ssa.Slice); ok {
+		if sl.Low != nil || sl.High != nil {
+			return nil, nil
+		}
+		base = sl.X
+	}
+	table, ok := base.(*ssa.Alloc)
+	if !ok {
+		return nil, nil
+	}
+	// the index: the range counter (phi of -1 and itself+1, or 0 and itself+1)
+	var phi *ssa.Phi
+	switch x := ia.Index.(type) {
+	case *ssa.Phi:
+		phi = x
+	case *ssa.BinOp:
+		phi, _ = x.X.(*ssa.Phi)
+	}
+	if phi == nil {
+		return nil, nil
+	}
+	return table, phi.Block()
 }
